@@ -558,7 +558,7 @@ Var& Var::extend(const Var& v)
 		_type = OBJ;
 	}
 	
-	if (_type == OBJ)
+	if (_type == OBJ && v._type == OBJ)
 	{
 		Dic<Var> src(*v._o); // v can be a property of this object that is overwritten below
 		foreach2 (String& k, Var & x, src)
